@@ -54,9 +54,21 @@ def sameConstraints (fuel : Nat) (m f : Formula) : Bool :=
     | some a, some b => a == b
     | _, _ => false)
 
+/-- `unwritable|which|exit class|anything on stdout 0/1`: the OUTPUT given cannot be created; a tool that then reports
+success has put its formula somewhere else or nowhere, and the file the user named does not hold it -/
+def handleUnwritable (tool : String) (fields : List String) : Verdict :=
+  match fields with
+  | [which, cls, _] =>
+    let o := if cls == "ok" then some s!"{tool} reported success although its output file cannot be created ({which}): the file named does not hold what was asked for"
+      else if cls == "panic" || cls == "signal" then some s!"{tool} crashed ({cls}) on an output file that cannot be created ({which})"
+      else none
+    { modelOk := cls == "err", modelOut := "refused", oracle := o, nontrivial := true }
+  | _ => Verdict.badLine "unwritable line needs three fields"
+
 /-- `queens|n|exit class|tree (variable id = k of v_k) or BIG or ERR|solver rows or -` -/
 def handleC15 (fields : List String) : Verdict :=
   match fields with
+  | "unwritable" :: rest => handleUnwritable "n_queens_gen" rest
   | ["text", n, version, bytes] =>
     -- the bytes of the output against the text model (`Queens.text`): a recorded tie, not a verdict —
     -- the property is decided on the parsed tree; `Thm/C15T` speaks about the current code while they agree
@@ -167,6 +179,7 @@ def copyPrefix (vs : List String) : String :=
 /-- `clique|u|a|edges (hexa>hexb,…)|exit class|tree (real ids)|names (hexname:id,…)|solver rows or -` -/
 def handleC16 (fields : List String) : Verdict :=
   match fields with
+  | "unwritable" :: rest => handleUnwritable "max_clique_gen" rest
   | ["text", u, a, version, edges, bytes] =>
     -- the bytes of the output against the text model (`Clique.text`): a recorded tie, not a verdict.  The
     -- iteration order of the vertex set is read off the `forall` line (so: only without --all)
@@ -287,6 +300,7 @@ def holdsConj (board : Nat → Bool) : Nat → Formula → Option Bool
 /-- `sudoku|root|puzzle (hex, whitespace removed)|exit class|tree or ERR|solver rows or -` -/
 def handleC17 (fields : List String) : Verdict :=
   match fields with
+  | "unwritable" :: rest => handleUnwritable "sudoku_gen" rest
   | ["ws", codes] =>
     -- the code points for which Rust's `char::is_whitespace` holds (asked of the standard library for every `char`),
     -- against the table the model strips with (`Sudoku.whitespaceTable`)
@@ -405,6 +419,7 @@ def vertexIndex (name : String) : Option Nat :=
 `gen|V|E or -|u|complete|exit class|edges`, `convert|u|input|exit class|output`, `colors|k|input|exit class|output` -/
 def handleC18 (fields : List String) : Verdict :=
   match fields with
+  | "unwritable" :: rest => handleUnwritable "random_graph_gen" rest
   | ["gen", _, _, _, _, "ok", "UNREADABLE"] =>
     { modelOk := false, modelOut := "an edge list", oracle := some "the output is not an edge list of the requested format" }
   | ["read", u, rawHex, cls, outHex] =>
